@@ -174,7 +174,7 @@ func verifyShared(v *Verifier, repo, root, key, tier string, timeout int, all bo
 			return recs, nil
 		}
 	}
-	nw := 8
+	nw := 16
 	if len(labels) < 16 {
 		nw = 1
 	}
@@ -238,7 +238,7 @@ func verifyShared(v *Verifier, repo, root, key, tier string, timeout int, all bo
 
 // verifyParallel spreads functions over worker processes (largest first is unknown, so round-robin).
 func verifyParallel(repo, root string, keys, sweep []string, timeout int, all bool, short string) ([]FuncRecord, error) {
-	nw := 8
+	nw := 16
 	if len(keys) < nw {
 		nw = len(keys)
 	}
